@@ -38,6 +38,8 @@ func runC10(cases []string, out *bufio.Writer, _ []string) {
 		probeLevels[l.Code()] = l
 	}
 	tag := log.RegisterTag("_c10_probe")
+	c10Dir, _ := os.MkdirTemp("/var/tmp", "verif-c10-")
+	defer os.RemoveAll(c10Dir)
 	for _, line := range cases {
 		f := strings.Fields(line)
 		kind, lv, rl, hooks := f[0], unhex(f[1]), unhex(f[2]), f[3]
@@ -84,7 +86,15 @@ func runC10(cases []string, out *bufio.Writer, _ []string) {
 		if kind != "none" {
 			cfg := map[string]string{"appender.a.type": "Rec", "logger.lg.tags": "_c10_*", "logger.lg.level": lv,
 				"logger.lg.appenderRef.ref": "a", "logger.lg.appenderRef.level": rl}
-			cfg["logger.lg.type"] = map[string]string{"sync": "Logger", "async": "AsyncLogger"}[kind]
+			cfg["logger.lg.type"] = map[string]string{"sync": "Logger", "async": "AsyncLogger", "syncr": "Logger", "asyncr": "AsyncLogger"}[kind]
+			if strings.HasSuffix(kind, "r") { // a second reference to a rolling-file appender (an appender that looks at the clock itself)
+				delete(cfg, "logger.lg.appenderRef.ref")
+				delete(cfg, "logger.lg.appenderRef.level")
+				cfg["appender.r.type"], cfg["appender.r.fileDir"], cfg["appender.r.fileName"] = "RollingFile", c10Dir, "c10.log"
+				cfg["appender.r.rotation"], cfg["appender.r.maxAge"] = "h", "1"
+				cfg["logger.lg.appenderRef[0].ref"], cfg["logger.lg.appenderRef[0].level"] = "a", rl
+				cfg["logger.lg.appenderRef[1].ref"], cfg["logger.lg.appenderRef[1].level"] = "r", rl
+			}
 			if err := log.Refresh(cfg); err != nil {
 				fmt.Fprintln(out, "err")
 				log.Stdout = os.Stdout
